@@ -30,6 +30,9 @@ type treeModel struct {
 	hist   string
 	exts   []extRecord
 	preds  []func([]byte, uint32) bool
+
+	handle1      *mimetype.MIME // live handle to the first extension, kept across later Extends
+	handle1Model *mnode
 }
 
 func (t *treeModel) labelOf(name, ext string) int {
@@ -79,17 +82,22 @@ var extPreds = []struct {
 	}},
 }
 
-var extAttach = []string{"root-pkg", "root-lookup", "text/plain", "application/zip", "application/json", "text/xml", "image/png", "application/pdf", "prev-ext"}
+var extAttach = []string{"root-pkg", "root-lookup", "text/plain", "application/zip", "application/json", "text/xml", "image/png", "application/pdf", "prev-ext", "handle-1"}
 
 // extOp is one Extend call.
 type extOp struct {
 	Attach  int // index into extAttach
 	Pred    int
 	Aliases int // 0, 1 or 2 aliases
+	Dup     bool // register under the shared name "x/dup" instead of a fresh one
 }
 
 func (o extOp) String() string {
-	return fmt.Sprintf("%s<-%s/a%d", extAttach[o.Attach], extPreds[o.Pred].name, o.Aliases)
+	d := ""
+	if o.Dup {
+		d = "/dupname"
+	}
+	return fmt.Sprintf("%s<-%s/a%d%s", extAttach[o.Attach], extPreds[o.Pred].name, o.Aliases, d)
 }
 
 var pristineTaken bool
@@ -148,6 +156,9 @@ func (t *treeModel) apply(op extOp) {
 	}
 	k := len(t.exts)
 	name := fmt.Sprintf("x/e%d", k+1)
+	if op.Dup {
+		name = "x/dup"
+	}
 	ext := fmt.Sprintf(".e%d", k+1)
 	backing := make([]string, op.Aliases+2)
 	for a := 0; a < op.Aliases; a++ {
@@ -161,6 +172,7 @@ func (t *treeModel) apply(op extOp) {
 		prevName = t.exts[k-1].name
 	}
 	var parentName string
+	var modelParent *mnode
 	switch extAttach[op.Attach] {
 	case "root-pkg":
 		mimetype.Extend(pred, name, ext, aliases...)
@@ -176,15 +188,33 @@ func (t *treeModel) apply(op extOp) {
 			mimetype.Lookup(prevName).Extend(pred, name, ext, aliases...)
 			parentName = prevName
 		}
+	case "handle-1":
+		// a handle to the first extension of this history, obtained right after
+		// its registration and kept while the tree changes
+		if t.handle1 == nil {
+			mimetype.Extend(pred, name, ext, aliases...)
+			parentName = "application/octet-stream"
+		} else {
+			t.handle1.Extend(pred, name, ext, aliases...)
+			modelParent = t.handle1Model
+			parentName = t.handle1Model.name
+		}
 	default:
 		parentName = extAttach[op.Attach]
 		mimetype.Lookup(parentName).Extend(pred, name, ext, aliases...)
 	}
-	p := t.find(parentName)
+	p := modelParent
+	if p == nil {
+		p = t.find(parentName)
+	}
 	n := &mnode{name: name, ext: ext, aliases: append([]string{}, aliases...), det: pred, parent: p}
 	n.label = t.labelOf(name, ext)
 	p.children = append([]*mnode{n}, p.children...)
 	t.exts = append(t.exts, extRecord{name, ext, parentName, aliases, backing[op.Aliases:]})
+	if k == 0 {
+		t.handle1 = mimetype.Lookup(name)
+		t.handle1Model = n
+	}
 	t.preds = append(t.preds, pred)
 	if t.hist != "" {
 		t.hist += " ; "
@@ -280,16 +310,31 @@ func (t *treeModel) fmtTrace(tr []int32) string {
 }
 
 var modelTraceBuf []int32
+var pristineBuf []byte
+var workBuf []byte
 
 // checkDetect runs Detect and compares consultation trace and result chain with
 // the model walk. depth is the model path length (root = 1).
 func (t *treeModel) checkDetect(in []byte, limit uint32) (ok bool, sig, msg string, depth int, leaf *mnode) {
+	// the implementation only ever sees a private copy: the caller's bytes stay pristine
+	pristineIn := in
+	workBuf = append(workBuf[:0], in...)
+	in = workBuf
 	h := header(in, limit)
+	pristineBuf = append(pristineBuf[:0], header(pristineIn, limit)...)
 	leaf, mt, depth := t.modelWalk(h, limit, modelTraceBuf[:0])
 	modelTraceBuf = mt
+	if !bytes.Equal(h, pristineBuf) {
+		// some signature check wrote into the header all checks share: whatever is
+		// consulted afterwards no longer judges the examined bytes
+		return false, "C03/header-modified-during-walk", fmt.Sprintf("input %s limit %d: a signature check modified the shared header during the reference walk (now %s)", quoteShort(pristineBuf), limit, quoteShort(h)), depth, leaf
+	}
 	t.trace = t.trace[:0]
 	m := detect(in, limit)
 	it := t.trace
+	if !bytes.Equal(header(in, limit), pristineBuf) {
+		return false, "C03/header-modified-during-walk", fmt.Sprintf("input %s limit %d: Detect modified the header it examines (now %s)", quoteShort(pristineBuf), limit, quoteShort(header(in, limit))), depth, leaf
+	}
 	// (a) consultations
 	if len(it) != len(mt) {
 		return false, "C03/trace-length", fmt.Sprintf("input %s limit %d tree[%s]: implementation consulted %d detectors, first-match walk consults %d\n impl: %s\n model: %s", quoteShort(in), limit, t.hist, len(it), len(mt), t.fmtTrace(it), t.fmtTrace(mt)), depth, leaf
